@@ -77,6 +77,10 @@ func genC18(rt *rapid.T) c18Scn {
 			}
 		case "wbig":
 			op.Size = mm + rapid.SampledFrom([]int{1, 1, 2, 1000}).Draw(rt, "over")
+		case "wclosed":
+			// what happened to the stream before Close(): nothing, a read deadline that expired
+			// and was left alone, a write deadline in the past, a message still on its way
+			op.Buf = rapid.SampledFrom([]int{0, 1, 1, 2, 3}).Draw(rt, "before")
 		case "rshort":
 			op.Buf = rapid.SampledFrom([]int{0, 1, -1, -2}).Draw(rt, "buf") // <=0: message size + Buf
 		case "rdl":
@@ -341,6 +345,19 @@ func runC18(t *testing.T, x c18Scn, verbose bool) (c vfCase) {
 						hc, e := s.stream(0, 8, PayloadTypeWebRTCBinary)
 						if e != nil {
 							continue
+						}
+						switch op.Buf {
+						case 1:
+							_ = hc.s.SetReadDeadline(time.Now().Add(time.Millisecond))
+							s.o.settle(5 * time.Millisecond)
+						case 2:
+							_ = hc.s.SetWriteDeadline(time.Now().Add(-time.Second))
+						case 3:
+							if hc.s.State() == StreamStateOpen && !x.Block {
+								if n0, e0, _ := write(hc.s, min(20, mm)); e0 == nil {
+									acceptedBytes += n0
+								}
+							}
 						}
 						_ = hc.s.Close()
 						n, err, _ = write(hc.s, min(10, mm))
